@@ -231,6 +231,43 @@ type vcView struct {
 	v    View
 	open bool
 	pre  bool // this view's battery asks with PrefetchAllTags (lazy evaluation of uncertain tags into the view's own copy)
+	// handler shape (every second view): the view lives in a goroutine written like the HTTP handlers of cmd/pkappa2,
+	// `v := mgr.GetView(); defer v.Release()` BEFORE the first use; the harness sends it the reads and finally lets it return.
+	req  chan func(*View)
+	done chan struct{}
+}
+
+func vcHandlerView(mgr *Manager, req chan func(*View), done chan struct{}) {
+	defer close(done)
+	v := mgr.GetView()
+	defer v.Release()
+	for f := range req {
+		f(&v)
+	}
+}
+
+func (vv *vcView) do(f func(*View)) {
+	if vv.req == nil {
+		f(&vv.v)
+		return
+	}
+	c := make(chan interface{}, 1)
+	vv.req <- func(v *View) {
+		defer func() { c <- recover() }()
+		f(v)
+	}
+	if p := <-c; p != nil {
+		panic(p)
+	}
+}
+
+func (vv *vcView) release() {
+	if vv.req == nil {
+		vv.v.Release()
+		return
+	}
+	close(vv.req)
+	<-vv.done
 }
 
 // webhook receiver: the pcap-processed report that names the processed capture files
@@ -518,11 +555,15 @@ func vcErrEnum(err error) string {
 }
 
 // battery queries a view: AllStreams, Stream(id) for id < probe, and the fixed searches.
-func (r *vcRun) battery(vv *vcView) vcViewObs {
+func (r *vcRun) battery(vv *vcView) (obs vcViewObs) {
+	vv.do(func(v *View) { obs = r.batteryOn(vv, v) })
+	return obs
+}
+
+func (r *vcRun) batteryOn(vv *vcView, v *View) vcViewObs {
 	obs := vcViewObs{Held: []string{}}
 	var sb strings.Builder
 	ctx := context.Background()
-	v := &vv.v
 	fail := func(what string, err error) {
 		e := vcErrEnum(err)
 		if e != "tag-not-defined" {
@@ -625,7 +666,7 @@ func (r *vcRun) observe(act []interface{}) *vcStep {
 	for _, vv := range r.views {
 		if vv.open { // after every view was asked: nobody but the view itself may have touched its copy of the tag details
 			o := step.Views[fmt.Sprint(vv.id)]
-			o.Tags = vcTagSnap(&vv.v)
+			vv.do(func(v *View) { o.Tags = vcTagSnap(v) })
 			step.Views[fmt.Sprint(vv.id)] = o
 		}
 	}
@@ -754,11 +795,19 @@ func (r *vcRun) apply(op []json.RawMessage) []interface{} {
 		r.mgr.ImportPcaps(names)
 		return []interface{}{"import", caps}
 	case "view", "viewp":
-		vv := &vcView{id: len(r.views), v: r.mgr.GetView(), open: true, pre: vcArgStr(op, 0) == "viewp"}
-		r.views = append(r.views, vv)
-		if err := vv.v.fetch(); err != nil {
-			panic(err)
+		vv := &vcView{id: len(r.views), open: true, pre: vcArgStr(op, 0) == "viewp"}
+		if vv.id%2 == 1 {
+			vv.req, vv.done = make(chan func(*View)), make(chan struct{})
+			go vcHandlerView(r.mgr, vv.req, vv.done)
+		} else {
+			vv.v = r.mgr.GetView()
 		}
+		r.views = append(r.views, vv)
+		vv.do(func(v *View) {
+			if err := v.fetch(); err != nil {
+				panic(err)
+			}
+		})
 		if vv.pre {
 			return []interface{}{"view", vv.id, "p"}
 		}
@@ -776,12 +825,14 @@ func (r *vcRun) apply(op []json.RawMessage) []interface{} {
 		vv := open[vcArgInt(op, 1)%len(open)]
 		if vcArgStr(op, 0) == "read" {
 			// the read itself is done by observe (every open view is queried after every action)
-			if err := vv.v.fetch(); err != nil {
-				panic(err)
-			}
+			vv.do(func(v *View) {
+				if err := v.fetch(); err != nil {
+					panic(err)
+				}
+			})
 			return []interface{}{"read", vv.id}
 		}
-		vv.v.Release()
+		vv.release()
 		vv.open = false
 		return []interface{}{"release", vv.id}
 	case "tagadd":
@@ -1094,7 +1145,7 @@ func (r *vcRun) scenario(w *bufio.Writer) {
 			}
 			for _, vv := range r.views {
 				if vv.open {
-					vv.v.Release()
+					vv.release()
 					vv.open = false
 					emit(r.observe([]interface{}{"release", vv.id}))
 				}
